@@ -1,7 +1,7 @@
 (* C12 — Task restarts stay within the configured policy.  Property theorems only. *)
-From Coq Require Import ZArith List Bool.
+From Coq Require Import ZArith List Bool String.
 Import ListNotations.
-Require Import V.Restart.Model V.Restart.Proofs.
+Require Import V.Restart.Model V.Restart.Proofs V.Restart.More.
 Open Scope Z_scope.
 
 (* A task is started again only for a listed reason or a failed submission (ordinary engines),
@@ -12,12 +12,26 @@ Theorem C12_only_restartable : forall c s r h stable ok,
 Proof. exact only_restartable. Qed.
 Print Assumptions C12_only_restartable.
 
-(* A repeating engine is restarted at most once, only after ResourceExhausted. *)
+(* A repeating engine is restarted at most once, only after ResourceExhausted, and (since the
+   F12b fix) only when the component lists that reason: the stability verdict opens no way round. *)
 Theorem C12_repeating : forall c s r h stable ok,
   is_rep c = true -> snd (ctl_restart c s r h stable ok) = Initiated ->
-  r = ResourceExhausted /\ restarts s = 0 /\ (In r (hook_on c) \/ stable = false).
+  r = ResourceExhausted /\ restarts s = 0 /\ In r (hook_on c).
 Proof. exact repeating_only_once. Qed.
 Print Assumptions C12_repeating.
+
+(* Hence for both engine kinds, and every clause of the policy at once: whatever the hook answers,
+   whatever the stability verdict, an initiated restart was for a listed reason or a failed
+   submission, on an engine not shut down, inside the re-submission cap and the restart budget. *)
+Theorem C12_initiated_policy : forall c s r h stable ok,
+  snd (ctl_restart c s r h stable ok) = Initiated ->
+  shut s = false /\
+  (r = SubmissionFailed \/ In r (hook_on c)) /\
+  (r = SubmissionFailed -> resub s < max_resub) /\
+  (is_rep c = false -> eff_max c = -1 \/ restarts s + 1 <= eff_max c) /\
+  (is_rep c = true -> r = ResourceExhausted /\ restarts s = 0).
+Proof. exact initiated_policy. Qed.
+Print Assumptions C12_initiated_policy.
 
 (* Never after a killed or cancelled task (the schema forbids listing them as restartable). *)
 Theorem C12_never_after_kill : forall c s r h stable ok,
@@ -56,10 +70,10 @@ Print Assumptions C12_resub_cap.
 Theorem C12_refusal_is_final : forall c h s cds f s',
   run_hist c s h = (cds, f, s') ->
   match f with
-  | None => Forall (fun cd => cd = Initiated) cds /\ length cds = length h
-  | Some x => exists h1 e h2, h = h1 ++ e :: h2 /\ length cds = S (length h1) /\
-                Forall (fun cd => cd = Initiated) (firstn (length h1) cds) /\
-                nth (length h1) cds Initiated <> Initiated /\
+  | None => Forall (fun cd => cd = Initiated) cds /\ List.length cds = List.length h
+  | Some x => exists h1 e h2, h = h1 ++ e :: h2 /\ List.length cds = S (List.length h1) /\
+                Forall (fun cd => cd = Initiated) (firstn (List.length h1) cds) /\
+                nth (List.length h1) cds Initiated <> Initiated /\
                 x = final_of c (ev_reason e) /\ shut s' = true
   end.
 Proof. exact refusal_is_final. Qed.
@@ -69,6 +83,113 @@ Theorem C12_shutdown_never_restarts : forall c s r h stable ok,
   shut s = true -> snd (ctl_restart c s r h stable ok) <> Initiated.
 Proof. exact shutdown_never_restarts. Qed.
 Print Assumptions C12_shutdown_never_restarts.
+
+(* ---- what a restart hook can and cannot cause.  [hook_called] says when a hook (the package's
+   or the fallback) is consulted at all.  Not consulted: its behaviour is irrelevant.  Consulted: the
+   counter goes up by one whatever it answers and the code is its answer mapped by code_of_context,
+   so it can refuse, or allow - and allowing is worth exactly the answer "restart possible".  The
+   counters after an exit never depend on the hook. *)
+Theorem C12_hook_power : forall c s r h stable ok,
+  (hook_called c s r = false -> forall h', ctl_restart c s r h' stable ok = ctl_restart c s r h stable ok) /\
+  (hook_called c s r = true ->
+     ctl_restart c s r h stable ok = (bump s, code_of_context (context_of (eff_hook c r h)) ok) /\
+     (hook_allows (eff_hook c r h) = false -> snd (ctl_restart c s r h stable ok) <> Initiated)) /\
+  (hook_allows (eff_hook c r h) = true ->
+     ctl_restart c s r h stable ok =
+     ctl_restart c s r (if match hook_file c with HFEmpty => false | _ => hook_loadable c end then HPossible else h) stable ok) /\
+  (forall h', fst (ctl_restart c s r h stable ok) = fst (ctl_restart c s r h' stable ok)).
+Proof.
+  intros c s r h stable ok. split; [intros Hc h'; exact (hook_not_called_irrelevant c s r h h' stable ok Hc)|].
+  split; [intros Hc; split; [exact (hook_called_outcome c s r h stable ok Hc)|exact (hook_can_refuse c s r h stable ok Hc)]|].
+  split; [exact (hook_can_allow c s r h stable ok)|intros h'; exact (hook_counters_same c s r h h' stable ok)].
+Qed.
+Print Assumptions C12_hook_power.
+
+(* ---- the DLMESO CONTROL-file hook shipped in engine.py as a concrete hook instance: four possible
+   answers, silent on every reason but ResourceExhausted, rewrites the file only when it allows the
+   restart, afterwards "restart" is the second-last line, idempotent (the keyword is inserted at
+   most once over any number of restarts); it allows iff the file is missing (vanilla restart) or
+   has at least two lines; the model's default hook is this hook without a CONTROL file. *)
+Theorem C12_dlmeso_hook : forall r r' f,
+  (let '(ho, f') := dlmeso_hook r f in
+   (r <> ResourceExhausted -> ho = HFalse /\ f' = f) /\
+   (ho = HFalse \/ ho = HRaiseIO \/ ho = HRaiseOther \/ ho = HTrue) /\
+   (ho <> HTrue -> f' = f) /\
+   (ho = HTrue -> exists cf, f' = Some cf /\ second_last (cf_lines cf) = Some "restart"%string)) /\
+  (fst (dlmeso_hook r f) = HTrue -> snd (dlmeso_hook r' (snd (dlmeso_hook r f))) = snd (dlmeso_hook r f)) /\
+  hook_allows (fst (dlmeso_hook ResourceExhausted f)) =
+    match f with None => true | Some cf => match second_last (cf_lines cf) with Some _ => true | None => false end end /\
+  default_hook r = fst (dlmeso_hook r None).
+Proof.
+  intros r r' f. split; [exact (dlmeso_answers r f)|]. split; [exact (dlmeso_idempotent r r' f)|].
+  split; [exact (dlmeso_allows f)|exact (default_hook_is_dlmeso r)].
+Qed.
+Print Assumptions C12_dlmeso_hook.
+
+(* ---- whole histories: the counter the engine keeps (Engine.restarts) and the restarts actually
+   performed.  Over any history from any state: the counter is monotone, never reset, equals the
+   number of performed continuation restarts while the component is alive and exceeds it by at most
+   one (the refused attempt) at the end; it never passes the maximum (1 for a repeating engine), so
+   performed restarts <= counter <= maximum; the compared trace's restarts column is non-decreasing. *)
+Theorem C12_counters_whole_history : forall c h s cds f s',
+  run_hist c s h = (cds, f, s') ->
+  (restarts s + count_cont c s h <= restarts s' <= restarts s + count_cont c s h + 1 /\
+   (f = None -> restarts s' = restarts s + count_cont c s h) /\ 0 <= count_cont c s h) /\
+  (is_rep c = false -> eff_max c <> -1 -> restarts s' <= Z.max (restarts s) (eff_max c)) /\
+  (is_rep c = true -> 0 <= restarts s -> restarts s' <= Z.max (restarts s) 1) /\
+  nondecreasing_from (restarts s) (map (fun o : obs => snd (fst o)) (fst (trace c s h))) /\
+  (Forall (fun e => ev_reason e <> Success) h -> resub s' = resub s + count_resub c s h).
+Proof.
+  intros c h s cds f s' H. split; [exact (hist_counters c h s cds f s' H)|].
+  split; [intros Hr Hm; exact (counter_bounded_engine c Hr Hm h s cds f s' H)|].
+  split; [intros Hr H0; exact (counter_bounded_repeating c Hr h s cds f s' H0 H)|].
+  split; [exact (trace_restarts_monotone c h s)|].
+  intros Hn. exact (proj1 (hist_resub c h s cds f s' Hn H)).
+Qed.
+Print Assumptions C12_counters_whole_history.
+
+(* When Success is not listed as restartable a successful exit ends the history, so the cap of five
+   needs no side condition; then an ordinary component with a finite maximum is started again at
+   most max + 5 times over ANY history and has its final state after at most max + 6 exits; a
+   repeating one after at most 2. *)
+Theorem C12_total_bound : forall c h cds f s',
+  run_hist c init_st h = (cds, f, s') ->
+  (~ In Success (hook_on c) -> count_resub c init_st h <= 5) /\
+  (is_rep c = false -> eff_max c <> -1 -> ~ In Success (hook_on c) ->
+     count_cont c init_st h + count_resub c init_st h <= Z.max 0 (eff_max c) + 5 /\
+     Z.of_nat (List.length cds) <= Z.max 0 (eff_max c) + 6 /\
+     (Z.max 0 (eff_max c) + 5 < Z.of_nat (List.length h) -> f <> None)) /\
+  (is_rep c = true ->
+     count_resub c init_st h = 0 /\ Z.of_nat (List.length cds) <= 2 /\ (2 <= List.length h -> f <> None)%nat).
+Proof.
+  intros c h cds f s' H. split.
+  - intros Hs. exact (proj1 (resub_cap_whole c Hs h init_st ltac:(discriminate))).
+  - split; [intros Hr Hm Hs; exact (total_bound c h cds f s' Hr Hm Hs H)|intros Hr; exact (total_bound_repeating c h cds f s' Hr H)].
+Qed.
+Print Assumptions C12_total_bound.
+
+(* the final state a refusal delivers (C12_refusal_is_final: final_of of the refused exit's reason)
+   is the one the exit reason dictates *)
+Theorem C12_final_dictated : forall c r,
+  (final_of c r = Finished <-> r = Success) /\
+  (final_of c r = Shutdown <-> r <> Success /\ In r (shutdown_on c)) /\
+  (final_of c r = Failed <-> r <> Success /\ ~ In r (shutdown_on c)).
+Proof. exact final_of_cases. Qed.
+Print Assumptions C12_final_dictated.
+
+(* ---- Engine.restart (ordinary engine): what it resets.  After any exit has been handled the
+   controller sees either an engine indistinguishable from a freshly built one (exitReason() None,
+   returncode() None, isAlive() True, no process, no launch/finish dates) - always so when the
+   restart was initiated - or, when the restart was refused before the reset, the exited engine
+   with the exit reason that dictates the final state still in place. *)
+Theorem C12_restart_is_fresh : forall c s e v,
+  (restart_reset v = fresh_view /\ observe (restart_reset v) = observe fresh_view /\
+   v_alive (restart_reset v) = true /\ v_returncode (restart_reset v) = None) /\
+  (snd (pm_step c s e) = Initiated -> view_after c s e = fresh_view) /\
+  (reaches_run c (on_exit s (ev_reason e)) (ev_reason e) (ev_hook e) (ev_stable e) = false ->
+     view_after c s e = exited_view (ev_reason e) /\ snd (pm_step c s e) <> Initiated).
+Proof. intros c s e v. split; [exact (restart_reset_fresh v)|exact (view_after_cases c s e)]. Qed.
+Print Assumptions C12_restart_is_fresh.
 
 (* non-vacuity: default policy (max 3, default hook), exits RE, RE, SubmissionFailed, RE, RE:
    three continuation restarts and one re-submission are initiated, the fourth RE is refused and
@@ -82,3 +203,20 @@ Example C12_nonvacuous :
      {| restarts := 3; resub := 1; shut := true |})
   /\ count_cont ex_cfg init_st (map ex_ev [ResourceExhausted; ResourceExhausted; SubmissionFailed; ResourceExhausted; ResourceExhausted]) = 3.
 Proof. split; reflexivity. Qed.
+
+(* the hypotheses of the added theorems are satisfiable: a consulted hook that refuses / allows;
+   a whole history within max + 5; the CONTROL file gets its keyword once *)
+Definition ex_custom : cfg := {| max_restarts := Some 2; hook_file := HFNamed; hook_loadable := true;
+  hook_on := [ResourceExhausted; KnownIssue]; is_sim := false; sim_restart := false; is_rep := false; shutdown_on := [KnownIssue] |}.
+Example C12_nonvacuous_more :
+  hook_called ex_custom init_st KnownIssue = true /\
+  ctl_restart ex_custom init_st KnownIssue HNotPossible true true = ({| restarts := 1; resub := 0; shut := false |}, CouldNotInitiate) /\
+  ctl_restart ex_custom init_st KnownIssue HJunk true true = ({| restarts := 1; resub := 0; shut := false |}, Initiated) /\
+  hook_called ex_custom init_st UnknownIssue = false /\
+  ~ In Success (hook_on ex_custom) /\ eff_max ex_custom = 2 /\
+  run_hist ex_custom init_st (map ex_ev [ResourceExhausted; SubmissionFailed; KnownIssue; KnownIssue])
+    = ([Initiated; Initiated; Initiated; MaxAttemptsExceeded], Some Shutdown, {| restarts := 2; resub := 1; shut := true |}) /\
+  dlmeso_hook ResourceExhausted (Some {| cf_lines := ["steps 100"%string; "finish"%string]; cf_last_nl := true |})
+    = (HTrue, Some {| cf_lines := ["steps 100"%string; "restart"%string; "finish"%string]; cf_last_nl := true |}) /\
+  view_after ex_custom init_st (ex_ev KnownIssue) = fresh_view.
+Proof. repeat split; try reflexivity. cbn. intros [H|[H|[]]]; discriminate. Qed.
